@@ -496,6 +496,8 @@ class DimArrayOnDisk(GetSetDelAttrMixin, NetCDFVariable, AbstractDimArray):
         # Perform additional checks on axes if the Data to assign is a DimArray
         if isinstance(dima, DimArray):
             for i, ax in enumerate(self.axes):
+                if ax.name not in dima.dims:
+                    continue # dimension dropped by a scalar index
                 idx = indices[i]
                 axis = dima.axes[ax.name]
                 # write unlimited dimensions
